@@ -12,7 +12,9 @@ replace an operand by the literal 0, drop a function / submodule / import.
 import copy, json, os, subprocess, sys, tempfile
 
 ROOT = os.path.dirname(os.path.dirname(os.path.abspath(__file__)))
-HARNESS = os.path.join(ROOT, "harness", "target", "debug", "cao-verif-harness")
+# C01_RED_HARNESS / C01_RED_CMD: another harness binary (harness/target-alt/...) / replay command (c06-case)
+HARNESS = os.environ.get("C01_RED_HARNESS", os.path.join(ROOT, "harness", "target", "debug", "cao-verif-harness"))
+CASE_CMD = os.environ.get("C01_RED_CMD", "c01-case")
 THEORIES = os.path.join(ROOT, "coq", "theories")
 import threading
 from concurrent.futures import ThreadPoolExecutor
@@ -28,7 +30,7 @@ def tmpdir():
 def run_case(m):
     p = os.path.join(tmpdir(), "m.json")
     json.dump(m, open(p, "w"))
-    r = subprocess.run([HARNESS, "c01-case", p], stdout=subprocess.PIPE, stderr=subprocess.PIPE, text=True, timeout=60)
+    r = subprocess.run([HARNESS, CASE_CMD, p], stdout=subprocess.PIPE, stderr=subprocess.PIPE, text=True, timeout=60)
     return r.returncode, r.stdout
 
 
